@@ -1,0 +1,13 @@
+//go:build verif
+
+package cert
+
+// Contracts for the deductive verifier in /verif (govc). This file contains comments only; it is compiled
+// only with the build tag "verif" and adds no code. Syntax: /verif/DESIGN.md, Appendix A.
+
+// OidFromString: the parsed value and the well-formedness of a dotted OID are functions of the text.
+//@ func OidFromString returns (oid, err)
+//@   props C03 C09
+//@   uses names.smt2
+//@   abstracts (err == nil) <==> isOidStr(s)
+//@   abstracts err == nil ==> oidv(oid) == parseOid(s)
